@@ -282,4 +282,7 @@ def tasks(tier):
                 out.append(task(MOD, 'run_defeat_calls', P, label=f'call/defeat/v{int(virtual)}/w{w}/u{int(unchecked)}', virtual=virtual, w=w, unchecked=unchecked, cost=3))
         for unchecked in (False, True):
             out.append(task(MOD, 'run_gen_funcs', P, label=f'func/all/w{w}/u{int(unchecked)}', w=w, unchecked=unchecked, cost=8))
+    if tier == 'quick':
+        out.append(task(MOD, 'run_calls', P, label='call/all/w3/u0', w=3, unchecked=False, tier=tier, cost=25))
+        out.append(task(MOD, 'run_gen_funcs', P, label='func/all/w3/u0', w=3, unchecked=False, cost=8))
     return out
